@@ -32,6 +32,9 @@ func verifAggValue(name string, kinds int) verifAggRow {
 	switch zzverif.Choose(name+".kind", kinds) {
 	case avInt:
 		v := int(int8(zzverif.NondetU64(name+".i", 8)))
+		if zzverif.Param("tiny", 0) == 1 {
+			v = int(zzverif.NondetU64(name+".i4", 3)) // 3-bit values keep sqrt/div queries tractable
+		}
 		return verifAggRow{present: true, val: v, num: float64(v), usable: true}
 	case avFloat:
 		h := float64(int8(zzverif.NondetU64(name+".h", 8))) / 2 // halves: exactly representable, exact sums
@@ -108,6 +111,31 @@ func verifAggOracle(name AggregateType, rows []verifAggRow) (want any, ok bool) 
 			v, seen = r.val, true
 		}
 		return v, true
+	case "collect":
+		var out []any
+		for _, r := range rows {
+			if r.present && !r.null {
+				out = append(out, r.val)
+			}
+		}
+		return out, true
+	case "median":
+		if n == 0 {
+			return nil, false
+		}
+		// insertion sort with the non-branching helper is overkill for n <= 3: enumerate
+		sorted := append([]float64(nil), nums...)
+		for i := 1; i < len(sorted); i++ {
+			for j := i; j > 0; j-- {
+				lo := zzverif.IteF(sorted[j] < sorted[j-1], sorted[j], sorted[j-1])
+				hi := zzverif.IteF(sorted[j] < sorted[j-1], sorted[j-1], sorted[j])
+				sorted[j-1], sorted[j] = lo, hi
+			}
+		}
+		if n%2 == 1 {
+			return sorted[n/2], true
+		}
+		return (sorted[n/2-1] + sorted[n/2]) / 2, true
 	case "stddev", "var", "stddevs", "vars":
 		if n == 0 {
 			return nil, false
@@ -154,6 +182,17 @@ func verifSameResult(got, want any) bool {
 	case string:
 		g, ok := got.(string)
 		return ok && g == w
+	case []any:
+		g, ok := got.([]any)
+		if !ok || len(g) != len(w) {
+			return false
+		}
+		for i := range w {
+			if !verifSameResult(g[i], w[i]) {
+				return false
+			}
+		}
+		return true
 	}
 	return false
 }
@@ -192,7 +231,19 @@ func VerifC03Scalar() {
 			} else {
 				zzverif.ObserveB("isnull", got == nil)
 			}
-			zzverif.Assert(verifSameResult(got, want), "aggregate-equals-definition")
+			if name == "stddev" {
+				// open finding: the registered stddev divides by n-1 although documented as the
+				// population standard deviation; region = at least two usable values
+				usable := 0
+				for _, r := range rows {
+					if r.usable {
+						usable++
+					}
+				}
+				zzverif.AssertKF(verifSameResult(got, want), "aggregate-equals-definition", "C03-stddev-sample-divisor", usable >= 2)
+			} else {
+				zzverif.Assert(verifSameResult(got, want), "aggregate-equals-definition")
+			}
 		} else {
 			zzverif.Cover("definition-open")
 		}
